@@ -49,6 +49,7 @@ partial def feOf : SX → Option FE
   | .node "inc" [o, .node p []] => do pure (.incr (← feOf o) p)
   | .node "pro" [a] => do pure (.protoOf (← feOf a))
   | .node "rgx" [] => some .regex
+  | .node "fcc" [.node k []] => k.toNat?.map .fcc
   | .node "fnc" [.node "fn" [.node "_" [], .node "PS" [], .node "V" vs, .node "D" ds, .node "S" ss]] => do
       pure (.fnCtor (.func none [] (names vs) (← declsOf ds) (← fssOf ss)))
   | .node "cnd" [t, a, b] => do pure (.cond (← feOf t) (← feOf a) (← feOf b))
@@ -100,8 +101,14 @@ partial def fsOf : SX → Option FS
   | .node "FI" [.node isVar [], .node x [], o, .node "S" b] => do pure (.forIn (isVar = "1") x (← feOf o) (← fssOf b))
   | .node "FII" [.node x [], ie, o, .node "S" b] => do pure (.forInI x (← feOf ie) (← feOf o) (← fssOf b))
   | .node "LB" [.node l [], s] => do pure (.label l (← fsOf s))
+  | .node "SW" (d :: cs) => do pure (.switchS (← feOf d) (← casesOf cs))
   | .node "BR" [.node l []] => some (.brk (optName l))
   | .node "CN" [.node l []] => some (.cont (optName l))
+  | _ => none
+partial def casesOf : List SX → Option FCases
+  | [] => some .nil
+  | .node "C" [e, .node "S" b] :: r => do pure (.case (← feOf e) (← fssOf b) (← casesOf r))
+  | .node "DF" [.node "S" b] :: r => do pure (.dflt (← fssOf b) (← casesOf r))
   | _ => none
 partial def fssOf : List SX → Option FSs
   | [] => some .nil
